@@ -167,9 +167,10 @@ CHECKS = {
         "lockset_query": True,
         "rule": "race suite (binary built with -race): on one real node, two goroutines submit transactions (including one transaction three times), one issues queries (pool, blocks, outputs, timestamps, registration), one produces blocks, one runs sync rounds against a second real node that produces competing blocks, one refreshes the registry, for 40-80 ms; at quiescence the chain monitors (C01-C04, C07, C10) run and admitted transactions are counted in chain + pool; any race-detector report is a violation. The place suite puts one operation inside another deterministically, by wrapping the injected collaborators: seven placements: a submission while a production tick is at its AddBlock call (the admitted transaction must be found exactly once in chain + pool); a production tick, and two production ticks, while a sync round is between verification and commit; a sync round while AddBlock consults the registry; a sync round after a production tick has read the tip and before it builds its block; the same with a pooled transaction that the adopted chain has already confirmed, so that the tick rejects it and is then refused by AddBlock ; a freshly started node adopting an older chain with the same tip time inside its tick (each time the quiescent state must satisfy C01-C07 and the pool must hold submitted transactions only, none twice, no reward). The sweep suite runs two operations of one real node (production tick, submission, sync round, registry refresh; eight ordered pairs) in two goroutines under a scheduler that decides at every collaborator call which of the two goes on (schedules of up to five segments; a thread waiting for a lock held by the paused one is detected and the other let on), in four worlds (a neighbor that extends the host's chain, a competing tip of equal height, a freshly started node facing an older chain, a deeper and longer fork) with pooled transactions that the neighbor's chain already confirms or that spend the host's own tip; the quiescent state is judged by the monitors, and every run whose switches fall on the call boundaries of the Gallina machine model/Interleave.v (V1..V4, A1..A4, U1..U3) is replayed on that machine: results of the operations and the final state (digest) must agree. The static part regenerates the access table and lock-order edges from the source on every run; distinct by (blocks, submissions, pool size)",
         "trusted_base": ["tools/genlockset (syntactic go/ast translator; rules in DESIGN.md 3.13: receiver-field accesses, locks held by statement order, defer-unlock holds to the end, inlining of calls on the receiver and on collaborator fields, goroutines run without the caller's locks, element stores through a local alias count as writes)",
-                         "the Go memory model is not formalised: the theorem is a lock discipline over an abstract reader/writer mutex semantics; the race detector and stress runs are search tools"],
+                         "the Go memory model is not formalised: the theorem is a lock discipline over an abstract reader/writer mutex semantics; the race detector and stress runs are search tools",
+                         "the scheduler of the sweep suite (harness/suite_sweep.go): decorators around the injected interfaces, goroutine identification through runtime.Stack, a 25 ms timeout to detect a thread waiting for a lock (a call that waited is placed where it returned)"],
         "assumptions": ["entry points = exported methods of Blockchain, TransactionsPool, UtxosRegistry, AddressesRegistry, Neighborhood, Engine; each engine-driven method does not overlap with itself",
-                        "operation-level interleavings (stale reads between a collaborator call and the commit) are not covered by a theorem: partial; the stress run checks the quiescent state"],
+                        "operation-level interleavings are proved linearisable at the granularity of collaborator calls (model/Interleave.v, C16_interleave.v) for schedules in which no sync round changes the chain state while a tick or a submission is in flight; outside that condition the statement is refuted (known finding stale-tick-view); schedules finer than the machine (a call taking effect inside AddBlock or inside the commit) and registry refreshes are judged by the monitors only: partial"],
     },
     "C15": {
         "suites": [{"suite": "wire", "n_quick": 96, "n_thorough": 2400, "shards": 8, "shards_thorough": 16}],
